@@ -383,7 +383,13 @@ func VerifC07_SetDoorPasscodes() {
 
 // ---- SetTimeProfile
 
-func VerifC07_SetTimeProfile() {
+func VerifC07_SetTimeProfile() { c07SetTimeProfile(false) }
+
+// the same over the legal HH:mm domain only (00:00..24:00): kept apart so that an implementation that goes
+// through time arithmetic is still decided there
+func VerifC07_SetTimeProfileLegalTimes() { c07SetTimeProfile(true) }
+
+func c07SetTimeProfile(legal bool) {
 	verifZone(1)
 	d, u := c07Driver()
 	id := nondetU32("id")
@@ -400,6 +406,9 @@ func VerifC07_SetTimeProfile() {
 			eh, em := nondetInt(keyTag("end.h", k)), nondetInt(keyTag("end.m", k))
 			// wider than the legal 00:00..24:00 domain
 			verifAssume(sh >= -9 && sh <= 99 && sm >= -9 && sm <= 99 && eh >= -9 && eh <= 99 && em >= -9 && em <= 99)
+			if legal {
+				verifAssume(((sh >= 0 && sh <= 23 && sm >= 0 && sm <= 59) || (sh == 24 && sm == 0)) && ((eh >= 0 && eh <= 23 && em >= 0 && em <= 59) || (eh == 24 && em == 0)))
+			}
 			if nondetBool(keyTag("segment.has", k)) {
 				segments[uint8(k)] = types.Segment{Start: types.NewHHmm(sh, sm), End: types.NewHHmm(eh, em)}
 				if eh < sh || (eh == sh && em < sm) {
@@ -415,4 +424,5 @@ func VerifC07_SetTimeProfile() {
 }
 
 // C16: the time-profile validation accepts a segment exactly when its end is not before its start
-func VerifC16_SetTimeProfileSegments() { VerifC07_SetTimeProfile() }
+func VerifC16_SetTimeProfileSegments()           { c07SetTimeProfile(false) }
+func VerifC16_SetTimeProfileSegmentsLegalTimes() { c07SetTimeProfile(true) }
